@@ -414,7 +414,7 @@ def run_property(chk, prop, laws, quick_gen=300, thorough_gen=4000, scns=None, n
     for scn in scns:
         hand = not scn.name.startswith("gen")
         scheds = ["canonical"] + ["random"] * (n_rand if hand else 1)
-        if "C11" in laws and hand and scn.extra.get("fail_payload") is None and "TimeoutSeconds" not in scn.machine \
+        if prop == "C11" and hand and scn.extra.get("fail_payload") is None and "TimeoutSeconds" not in scn.machine \
                 and not scn.name.startswith("oversize"):
             # the same over a Redis-backed store shared by two engine instances (each its own client): the record and the
             # history read through either instance are the same
